@@ -353,9 +353,305 @@ Proof.
     + apply Fr_trans with (b := s3).
       * apply Fr_restsame; [exact RS3| |rewrite A3; subst s2; sp; lia|left; rewrite H3; reflexivity].
         destruct K3 as (_&_&_&->&_). reflexivity.
-      * apply Fr_restsame; [constructor; reflexivity|reflexivity|subst s4; sp; lia|left; reflexivity].
+      * constructor; subst s4; sp; try reflexivity; try lia; try tauto.
     + subst s4. destruct RS3. constructor; sp; assumption.
     + subst s4. sp. rewrite RR. reflexivity.
     + subst s4. sp. rewrite NO3. reflexivity.
     + subst s4. sp. apply (rs_trace _ _ RS3).
+Qed.
+
+Lemma KInv_kfresh : forall k, KInv k -> kfresh k.
+Proof. intros k [A B]. exact B. Qed.
+
+(* a descriptor number not yet allocated is referenced by nothing *)
+Lemma fresh_hyps : forall s fd, InvE s -> next_fd (kern s) <= fd ->
+  1000 <= fd /\ (forall k', registered (fdt s k') = true -> fdnum (fdt s k') <> fd) /\
+  ep_find (ep (kern s)) fd = false /\ (active_ref s = 1 -> fd <> active_fd s).
+Proof.
+  intros s fd I N. pose proof (ms_kinv _ (ie_misc _ I)) as [K1 K2]. pose proof (ie_fd _ I) as FI.
+  split; [lia|]. split; [|split].
+  - intros k' R Q. pose proof (fv_open _ _ FI k' (live_reg _ _ _ FI R (-1))) as O.
+    apply k_open_some_get in O. apply K2 in O. lia.
+  - apply ep_find_false. intros e He Q. pose proof (fv_ealloc _ _ FI e He) as G. apply K2 in G. lia.
+  - intros A Q. destruct (dy_act _ (ie_dyn _ I) A) as (_ & (v & V & _) & _).
+    assert (G : k_get (kern s) (active_fd s) <> None) by (apply k_open_some_get; congruence).
+    apply K2 in G. lia.
+Qed.
+
+Definition RawFail (s s' : core) : Prop :=
+  InvE s' /\ Fr s s' /\ EvFr s s' /\ rw_reg s' = rw_reg s /\ numobjs s' = numobjs s /\ trace s' = trace s.
+
+(* the state after the eventfd mode has been updated *)
+Lemma efd_state_ok : forall s k1 u, InvE s -> kstable (kern s) k1 ->
+  (u = 0 \/ u = 1 \/ u = 2) -> (u = 0 -> no_eventfd (flt (kern s)) = true) ->
+  (efd_raw s = 0 -> u = 0) -> (no_eventfd (flt (kern s)) = false -> efd_raw s <> 0 -> u <> 0) ->
+  let s1 := set_efd (set_kern s k1) (efd_epoll s) u in
+  InvE s1 /\ Fr s s1 /\ EvFr s s1 /\ rw_reg s1 = rw_reg s /\ numobjs s1 = numobjs s /\ trace s1 = trace s /\
+  fdt s1 = fdt s /\ active_ref s1 = active_ref s /\ active_fd s1 = active_fd s.
+Proof.
+  intros s k1 u I S U1 U2 U3 U4 s1. pose proof (kt_nwait _ _ S) as NW. split.
+  - subst s1. apply InvE_efd_raw; [apply InvE_kstable; assumption|].
+    unfold ModeOK. sp. rewrite (kt_flt _ _ S). tauto.
+  - split; [constructor; subst s1; sp; try reflexivity; try lia; try tauto|].
+    split; [constructor; reflexivity|]. repeat split.
+Qed.
+
+Definition raw_stage2 (s : core) (got : option (Z * Z)) : core * option (Z * Z) * bool :=
+  match got with
+  | Some p => (s, Some p, false)
+  | None =>
+      if efd_raw s =? 0 then
+        match k_pipe (kern s) with
+        | (k1, Some (r, w)) => (set_kern s k1, Some (r, w), false)
+        | (k1, None) => (set_kern s k1, None, true)
+        end
+      else (s, None, true)
+  end.
+
+Definition raw_finish (j : Z) (x : core * option (Z * Z) * bool) : res * bool :=
+  let '(s, got, _) := x in
+  match got with
+  | None => (R s, true)
+  | Some (rfd, wfd) => (raw_install s j rfd wfd, false)
+  end.
+
+Lemma raw_register_unfold : forall s j,
+  raw_register s j =
+  let in_use := efd_raw s in
+  let '(s1, got, failed) :=
+    if negb (in_use =? 0) then
+      match eventfd_grab (kern s) in_use with
+      | (k1, inl fd, u) => (set_efd (set_kern s k1) (efd_epoll s) u, Some (fd, fd), false)
+      | (k1, inr e, u) => (set_efd (set_kern s k1) (efd_epoll s) u, None, negb (is_enosys e))
+      end
+    else (s, None, false) in
+  if failed then (R s1, true) else raw_finish j (raw_stage2 s1 got).
+Proof.
+  intros s j. unfold raw_register, raw_finish, raw_stage2, raw_install, RAW_KEY, raw_fdo. cbv zeta.
+  destruct (negb (efd_raw s =? 0)).
+  - destruct (eventfd_grab (kern s) (efd_raw s)) as [[k1 [fd|e]] u]; [reflexivity|].
+    destruct (negb (is_enosys e)); [reflexivity|].
+    destruct (efd_raw (set_efd (set_kern s k1) (efd_epoll s) u) =? 0); [|reflexivity].
+    destruct (k_pipe (kern (set_efd (set_kern s k1) (efd_epoll s) u))) as [k2 [[r w]|]]; reflexivity.
+  - destruct (efd_raw s =? 0); [|reflexivity].
+    destruct (k_pipe (kern s)) as [k2 [[r w]|]]; reflexivity.
+Qed.
+
+Definition RawRes (j : Z) (s : core) (failed : bool) (s' : core) : Prop :=
+  if failed then RawFail s s' else RawPost j s s'.
+
+(* the second stage, entered without descriptors: the pipe fall-back *)
+Lemma raw_pipe_ok : forall s0 s j, InvE s -> 0 <= j <= 16 -> rw_reg s j = false ->
+  Fr s0 s -> EvFr s0 s -> rw_reg s = rw_reg s0 -> numobjs s = numobjs s0 -> trace s = trace s0 ->
+  (efd_raw s <> 0 -> emfile (flt (kern s)) = true \/ True) ->
+  let x := raw_finish j (raw_stage2 s None) in okr (RawRes j s0 (snd x)) (fst x).
+Proof.
+  intros s0 s j I J RF F0 E0 R0 N0 T0 _. unfold raw_stage2.
+  assert (FAIL : forall s1, s1 = s -> okr (RawRes j s0 true) (R s1)).
+  { intros s1 ->. cbn [okr]. unfold RawRes, RawFail. tauto. }
+  destruct (Z.eqb_spec (efd_raw s) 0) as [Z0|NZ]; [|cbn [raw_finish fst snd]; apply FAIL; reflexivity].
+  pose proof (pipe_spec (kern s) (KInv_kfresh _ (ms_kinv _ (ie_misc _ I)))) as PS.
+  destruct (k_pipe (kern s)) as [k1 [[r w]|]].
+  - destruct PS as (EM & -> & -> & KS & KF & OR & OW). cbn [raw_finish fst snd].
+    set (s1 := set_kern s k1).
+    assert (I1 : InvE s1) by (apply InvE_kstable; assumption).
+    destruct (fresh_hyps s (next_fd (kern s)) I ltac:(lia)) as (H1 & H2 & H3 & H4).
+    eapply okr_weaken; [apply (raw_install_ok s1 j (next_fd (kern s)) (next_fd (kern s) + 1) I1 J RF H1)|].
+    + subst s1. sp. congruence.
+    + exact H2.
+    + subst s1. sp. rewrite (kt_ep _ _ KS). exact H3.
+    + exact H4.
+    + subst s1. sp. rewrite Z0. cbn [Z.eqb]. split; [assumption|]. split; [lia|].
+      eexists _, _. split; [exact OR|]. split; [reflexivity|]. split; [reflexivity|]. split; [reflexivity|].
+      split; [exact OW|]. split; reflexivity.
+    + intros Q. contradiction.
+    + intros s' (A & B & C & D & E & G). unfold RawRes, RawPost.
+      assert (F1 : Fr s s1) by (apply Fr_set_kern; apply (kt_nwait _ _ KS)).
+      split; [assumption|]. split; [eapply Fr_trans; [exact F0|]; eapply Fr_trans; eassumption|].
+      split; [eapply EvFr_trans; [exact E0|]; eapply EvFr_trans; [|exact C]; constructor; reflexivity|]. split; [rewrite D; subst s1; sp; rewrite R0; reflexivity|].
+      split; [rewrite E; subst s1; sp; lia|rewrite G; subst s1; sp; assumption].
+  - destruct PS as (-> & EM). cbn [raw_finish fst snd okr]. unfold RawRes, RawFail.
+    assert (I1 : InvE (set_kern s (kern s))) by (apply InvE_kstable; [assumption|apply kstable_refl]).
+    split; [assumption|]. split; [eapply Fr_trans; [exact F0|]; apply Fr_set_kern; reflexivity|].
+    split; [destruct E0; constructor; assumption|]. repeat split; assumption.
+Qed.
+
+Lemma raw_register_ok : forall s j, InvE s -> 0 <= j <= 16 -> rw_reg s j = false ->
+  okr (RawRes j s (snd (raw_register s j))) (fst (raw_register s j)).
+Proof.
+  intros s j I J RF. rewrite raw_register_unfold. cbv zeta.
+  pose proof (ie_dyn _ I) as DI. pose proof (ms_kinv _ (ie_misc _ I)) as KI.
+  destruct (Z.eqb_spec (efd_raw s) 0) as [Z0|NZ]; cbn [negb].
+  - (* no eventfd support known: straight to the pipe *)
+    apply (raw_pipe_ok s s j I J RF (Fr_refl s) (EvFr_refl s)); try reflexivity. tauto.
+  - pose proof (grab_spec (kern s) (efd_raw s) (KInv_kfresh _ KI) (dy_modes _ DI)) as GS.
+    destruct (eventfd_grab (kern s) (efd_raw s)) as [[k1 [fd|e]] u].
+    + (* an eventfd *)
+      destruct GS as (-> & KS & KF & OP & NE & EM & U & _). cbn [raw_stage2 raw_finish fst snd].
+      destruct (efd_state_ok s k1 u I KS) as (I1 & F1 & E1 & R1 & N1 & T1 & FD1 & AR1 & AF1);
+        [lia|intros Q; lia|intros Q; contradiction|intros _ _; lia|].
+      cbv zeta in *. set (s1 := set_efd (set_kern s k1) (efd_epoll s) u) in *.
+      destruct (fresh_hyps s (next_fd (kern s)) I ltac:(lia)) as (H1 & H2 & H3 & H4).
+      eapply okr_weaken; [apply (raw_install_ok s1 j (next_fd (kern s)) (next_fd (kern s)) I1 J)|].
+      * rewrite R1. assumption.
+      * exact H1.
+      * subst s1. sp. congruence.
+      * rewrite FD1. exact H2.
+      * subst s1. sp. rewrite (kt_ep _ _ KS). exact H3.
+      * rewrite AR1, AF1. exact H4.
+      * subst s1. sp. destruct (Z.eqb_spec u 0); [lia|]. split; [assumption|]. split; [reflexivity|].
+        eexists. split; [exact OP|reflexivity].
+      * intros _. subst s1. sp. rewrite (kt_flt _ _ KS). assumption.
+      * intros s' (A & B & C & D & E & G). unfold RawRes, RawPost.
+        split; [assumption|]. split; [eapply Fr_trans; eassumption|]. split; [eapply EvFr_trans; eassumption|].
+        split; [rewrite D, R1; reflexivity|]. split; [rewrite E, N1; reflexivity|rewrite G, T1; reflexivity].
+    + destruct GS as (-> & [(EN & -> & [IU|NE])|(EN & EM & -> & IU)]); rewrite EN; cbn [negb].
+      * contradiction.
+      * (* ENOSYS: the mode drops to 0, then the pipe *)
+        destruct (efd_state_ok s (kern s) 0 I (kstable_refl _)) as (I1 & F1 & E1 & R1 & N1 & T1 & _);
+          [tauto|intros _; exact NE|tauto|intros Q; congruence|].
+        cbv zeta in *. set (s1 := set_efd (set_kern s (kern s)) (efd_epoll s) 0) in *.
+        assert (RF1 : rw_reg s1 j = false) by (rewrite R1; assumption).
+        apply (raw_pipe_ok s s1 j I1 J RF1 F1 E1 R1 N1 T1). tauto.
+      * (* EMFILE *)
+        destruct (efd_state_ok s (kern s) (efd_raw s) I (kstable_refl _)) as (I1 & F1 & E1 & R1 & N1 & T1 & _);
+          [apply (dy_modes _ DI)|intros Q; contradiction|tauto|tauto|].
+        cbn [fst snd okr]. unfold RawRes, RawFail. tauto.
+Qed.
+
+(* ---------- close ---------- *)
+Lemma InvE_trace : forall s l, InvE s -> nobad l -> InvE (set_trace s l).
+Proof.
+  intros s l [A B C D E G H] NB. constructor.
+  - apply FdInv_trace. assumption.
+  - intros k. apply sync_at_same with (s := s); try reflexivity. apply B.
+  - destruct C. constructor; assumption.
+  - exact D.
+  - apply (TaskInv_same s); [reflexivity..|exact E].
+  - destruct G. constructor; assumption.
+  - destruct H. constructor; assumption.
+Qed.
+
+Definition unref (s : core) (fd : Z) : Prop :=
+  (forall k', registered (fdt s k') = true -> fdnum (fdt s k') <> fd) /\
+  (forall j', rw_reg s j' = true -> rw_rfd s j' <> fd /\ rw_wfd s j' <> fd) /\
+  (active_ref s = 1 -> active_fd s <> fd /\ active_wr s <> fd).
+Definition unrefR (s : core) (p : Z) : Prop :=
+  (forall j', rw_reg s j' = true -> rw_rfd s j' <> p) /\ (active_ref s = 1 -> active_fd s <> p).
+
+Lemma pipe_ok_close : forall k fd r w, r <> fd -> w <> fd ->
+  (forall v, k_open k fd = Some v -> r <> vpeer v) ->
+  pipe_ok k r w -> pipe_ok (fst (k_close k fd)) r w.
+Proof.
+  intros k fd r w N1 N2 P (X & Y & v & vw & A & B & C & D & E & F & G).
+  destruct (k_close_spec k fd) as (_ & _ & _ & _ & _ & S6 & S7 & _). cbv zeta in *.
+  split; [assumption|]. split; [assumption|].
+  apply k_open_get in A. destruct A as [A1 A2]. apply k_open_get in E. destruct E as [E1 E2].
+  exists v. destruct (S7 w vw E1) as (vw' & Q1 & Q2 & Q3 & Q4). exists vw'.
+  split; [apply k_get_open; [rewrite S6; assumption|assumption]|].
+  split; [assumption|]. split; [assumption|]. split; [assumption|].
+  split; [apply k_get_open; [assumption|rewrite (Q4 N2); assumption]|]. split; congruence.
+Qed.
+
+Lemma k_open_close_other : forall k fd x v, x <> fd -> k_open k x = Some v ->
+  exists v', k_open (fst (k_close k fd)) x = Some v' /\ vkind v' = vkind v.
+Proof.
+  intros k fd x v N O. destruct (k_close_spec k fd) as (_ & _ & _ & _ & _ & _ & S7 & _). cbv zeta in *.
+  apply k_open_get in O. destruct O as [G C]. destruct (S7 x v G) as (v' & Q1 & Q2 & Q3 & Q4).
+  exists v'. split; [apply k_get_open; [assumption|rewrite (Q4 N); assumption]|assumption].
+Qed.
+
+Lemma evfd_ok_close : forall k fd r w, r <> fd -> evfd_ok k r w -> evfd_ok (fst (k_close k fd)) r w.
+Proof.
+  intros k fd r w N (X & A & v & B & C). destruct (k_open_close_other k fd r v N B) as (v' & Q1 & Q2).
+  split; [assumption|]. split; [assumption|]. exists v'. split; congruence.
+Qed.
+
+Lemma set_kern_close_ok : forall s fd, InvE s -> unref s fd ->
+  (forall v, k_open (kern s) fd = Some v -> unrefR s (vpeer v)) ->
+  InvE (set_kern s (fst (k_close (kern s) fd))).
+Proof.
+  intros s fd [A B C D E G H] (U1 & U2 & U3) UP.
+  destruct (k_close_spec (kern s) fd) as (S1 & S2 & S3 & S4 & S5 & S6 & S7 & S8 & S9). cbv zeta in *.
+  set (k' := fst (k_close (kern s) fd)) in *.
+  assert (OPN : forall x, x <> fd -> k_open (kern s) x <> None -> k_open k' x <> None).
+  { intros x N O. destruct (k_open (kern s) x) as [v|] eqn:Q; [|congruence].
+    destruct (k_open_close_other (kern s) fd x v N Q) as (v' & Q1 & _). fold k' in Q1. congruence. }
+  assert (GET : forall x, k_get (kern s) x <> None -> k_get k' x <> None).
+  { intros x O. destruct (k_get (kern s) x) as [v|] eqn:Q; [|congruence].
+    destruct (S7 x v Q) as (v' & Q1 & _). congruence. }
+  constructor.
+  - (* FdInv *)
+    constructor; sp; try fd_auto A.
+    + intros k L. apply OPN; [|apply (fv_open _ _ A); assumption]. apply U1. apply live_none in L. tauto.
+    + intros EE. destruct (fv_poll_excl _ _ A EE) as [P Q]. split; [assumption|].
+      destruct (ep k') as [|e l] eqn:EP; [reflexivity|]. exfalso.
+      assert (In e (ep (kern s))) by (apply S4; rewrite EP; left; reflexivity). rewrite Q in *. contradiction.
+    + intros e He. apply S4 in He. apply (fv_ent _ _ A). tauto.
+    + intros EE k L R. destruct (fv_has _ _ A EE k L R) as (e & He & F1 & F2). exists e. split; [|tauto].
+      apply S4. split; [assumption|]. intros _. rewrite F1. apply U1. apply live_none in L. tauto.
+    + intros EE k L R. pose proof (fv_none _ _ A EE k L R) as F. apply ep_find_false. intros e He.
+      apply S4 in He. rewrite ep_find_false in F. apply F. tauto.
+    + apply S5. apply (fv_nodup _ _ A).
+    + intros e He. apply S4 in He. apply GET. apply (fv_ealloc _ _ A). tauto.
+    + intros Q. destruct (fv_kick _ _ A Q) as (e & He & F1 & F2). exists e. split; [|tauto].
+      apply S4. split; [assumption|]. intros _. rewrite F1. apply U3. assumption.
+  - intros k. apply sync_at_same with (s := s); try reflexivity. apply B.
+  - destruct C. constructor; sp; try assumption.
+    + intros j J. specialize (dy_kern j J). destruct (U2 j J) as [N1 N2]. destruct (efd_raw s =? 0).
+      * apply pipe_ok_close; try assumption. intros v O. apply (UP v O). assumption.
+      * apply evfd_ok_close; assumption.
+    + rewrite S2. assumption.
+    + rewrite S2. assumption.
+    + intros Q. destruct (dy_act Q) as (X & (v & V1 & V2) & W). destruct (U3 Q) as [N1 N2]. split; [assumption|]. split.
+      * destruct (k_open_close_other (kern s) fd _ v N1 V1) as (v' & Q1 & Q2). exists v'. split; [assumption|]. rewrite Q2. assumption.
+      * destruct W as [W|W]; [left; assumption|right]. apply pipe_ok_close; try assumption.
+        intros v0 O. apply (UP v0 O). assumption.
+    + destruct dy_tfd as [T|(T & v & V1 & V2)]; [left; assumption|right]. split; [assumption|].
+      destruct (S7 _ v V1) as (v' & Q1 & Q2 & _). exists v'. split; congruence.
+    + intros e He Q. apply S4 in He. destruct He as [He NF]. destruct (dy_tfdent e He Q) as (v & V1 & V2).
+      assert (TF : en_fd e = tfd s).
+      { destruct (fv_ent _ _ A e He) as [((L&_)&_)|[(L&_)|(_&L1&_)]]; [destruct L; lia|lia|assumption]. }
+      assert (N : tfd s <> fd).
+      { rewrite <- TF. apply NF. rewrite <- TF in V1. congruence. }
+      destruct (k_open_close_other (kern s) fd _ v N V1) as (v' & Q1 & Q2). exists v'. split; congruence.
+  - exact D.
+  - apply (TaskInv_same s); [reflexivity..|exact E].
+  - destruct G. constructor; assumption.
+  - destruct H as [H1 H2 H3 [K1 K2]]. constructor; sp; try assumption.
+    + rewrite S2. assumption.
+    + constructor; [rewrite S1; assumption|]. intros x Q. rewrite S1. apply K2.
+      destruct (k_get (kern s) x) eqn:Z; [congruence|]. rewrite (S8 x Z) in Q. congruence.
+Qed.
+
+Lemma do_close_ok : forall s fd, InvE s -> unref s fd ->
+  (forall v, k_open (kern s) fd = Some v -> unrefR s (vpeer v)) ->
+  let s' := do_close s fd in
+  InvE s' /\ Fr s s' /\ coresame (set_kern s (kern s')) s' /\
+  (forall x, x <> fd -> (forall v, k_open (kern s) fd = Some v -> x <> vpeer v) -> k_get (kern s') x = k_get (kern s) x) /\
+  (k_open (kern s) fd <> None -> k_open (kern s') fd = None) /\
+  (forall x v, k_open (kern s') x = Some v -> exists v0, k_open (kern s) x = Some v0 /\ vkind v0 = vkind v /\ vpeer v0 = vpeer v).
+Proof.
+  intros s fd I U UP. pose proof (set_kern_close_ok s fd I U UP) as I1.
+  destruct (k_close_spec (kern s) fd) as (S1 & S2 & S3 & S4 & S5 & S6 & S7 & S8 & S9). cbv zeta in *.
+  assert (BACK : forall x v, k_open (fst (k_close (kern s) fd)) x = Some v ->
+            exists v0, k_open (kern s) x = Some v0 /\ vkind v0 = vkind v /\ vpeer v0 = vpeer v).
+  { intros x v O. apply k_open_get in O. destruct O as [G C].
+    destruct (k_get (kern s) x) as [v0|] eqn:Z; [|rewrite (S8 x Z) in G; discriminate].
+    destruct (S7 x v0 Z) as (v' & Q1 & Q2 & Q3 & Q4). rewrite G in Q1. injection Q1 as <-.
+    exists v0. split; [|split; congruence]. apply k_get_open; [assumption|].
+    destruct (Z.eq_dec x fd) as [->|N]; [|rewrite <- (Q4 N); assumption].
+    destruct (k_open (kern s) fd) eqn:OO; [|apply k_get_open in Z; [congruence|]].
+    - rewrite S9 in *; [|congruence]. unfold k_open in S9. 
+      assert (k_open (fst (k_close (kern s) fd)) fd = None) by (apply S9; congruence).
+      unfold k_open in H. rewrite G, C in H. discriminate.
+    - destruct (vclosed v0) eqn:CC; [|reflexivity]. exfalso.
+      unfold k_close in G. rewrite OO in G. cbn [fst] in G. rewrite Z in G. injection G as <-. congruence. }
+  unfold do_close. destruct (k_close (kern s) fd) as [k1 ok] eqn:KC. cbn [fst] in *.
+  assert (NW : nwait k1 = nwait (kern s)) by assumption.
+  destruct ok; cbv zeta; sp.
+  - split; [apply InvE_trace; [exact I1|]; apply nobad_cons; [apply (ms_nobad _ (ie_misc _ I))|discriminate..]|].
+    split; [constructor; sp; try reflexivity; try lia; try tauto|].
+    split; [cs_refl|]. tauto.
+  - split; [exact I1|]. split; [apply Fr_set_kern; assumption|]. split; [cs_refl|]. tauto.
 Qed.
